@@ -87,6 +87,8 @@ def r1_states(ctx, F):
             # one view built after an `if`: its `state` is None on the ignored path and Some(successor) otherwise
             kinds = origin_vals(b, p.args[1], extra=[{'f': st_idx}])
             for k_ in kinds:
+                if k_.kind == 'call' and k_.key == ns[0].bb and not k_.projs:
+                    ok_none = ok_some = True      # the Option returned by next_state, handed on as it is
                 if k_.kind == 'agg' and k_.key[2] == 'None':
                     ok_none = True
                 elif k_.kind == 'agg' and k_.key[2] == 'Some' and k_.key[3] and noref(k_.key[3][0]).kind == 'call' and \
@@ -205,6 +207,13 @@ def r3_path_constructors(ctx, F):
                     c = n.call_at(v.key) if v.kind == 'call' else None
                     return c is not None and c.is_('fingerprint')
                 cmp_ = [x for x in comparisons(n) if x[2] in ('eq', 'ne') and (is_fp(x[0]) or is_fp(x[1]))]
+                # closures that are not normalised away (e.g. the step of a `try_fold`) are searched too
+                for xb in [F.norm(x_) for x_ in F.closures_under(n)]:
+                    def is_fp2(v, xb=xb):
+                        v = noref(v)
+                        c = xb.call_at(v.key) if v.kind == 'call' else None
+                        return c is not None and c.is_('fingerprint')
+                    cmp_ += [x for x in comparisons(xb) if x[2] in ('eq', 'ne') and (is_fp2(x[0]) or is_fp2(x[1]))]
                 ctx.check(len(cmp_) >= 2, rule, '%s-matches-by-fingerprint-equality' % name, b,
                           good='both the initial and the next state are selected by fingerprint equality',
                           bad='Path::%s does not select initial and next states by fingerprint equality '
